@@ -1607,6 +1607,9 @@ def m_parse_int(it, name, a):
         raise Unsupported('parse::<%s>' % ty)
     s = it.deref(a[0])
     radix = a[1] if 'radix' in name else 10
+    from .symstr import SStr
+    if isinstance(s, SStr) and radix == 16 and not ty.startswith('i'):
+        return _parse_hex_sym(it, s, ty)
     if not isinstance(s, str) or not isinstance(radix, int):
         raise Unsupported('symbolic integer parsing')
     bits = INT_BITS[ty]
@@ -1635,6 +1638,41 @@ def m_parse_int(it, name, a):
     if v < lo:
         return E('NegOverflow')
     return ok(v)
+
+
+def _parse_hex_sym(it, s, ty):
+    """u64::from_str_radix(s, 16) on a string with symbolic characters: forks on digit / non-digit per symbolic char"""
+    from .interp import INT_BITS
+    bits = INT_BITS[ty]
+    E = lambda kind: err(Adt('ParseIntError', kind, []))
+    cs = list(s.chars)
+    if not cs:
+        return E('Empty')
+    if isinstance(cs[0], int) and chr(cs[0]) == '+':
+        cs = cs[1:]
+        if not cs:
+            return E('InvalidDigit')
+    if len(cs) * 4 > bits:
+        # leading digits must be zero, else PosOverflow: keep it simple and concrete
+        raise Unsupported('symbolic hex literal wider than the target type')
+    val = z3.BitVecVal(0, bits)
+    for c in cs:
+        if isinstance(c, int):
+            ch = chr(c)
+            if ch not in '0123456789abcdefABCDEF':
+                return E('InvalidDigit')
+            d = z3.BitVecVal(int(ch, 16), bits)
+        else:
+            if it.decide(z3.And(z3.UGE(c, ord('0')), z3.ULE(c, ord('9')))):
+                d = z3.ZeroExt(bits - 32, c - ord('0')) if bits > 32 else z3.Extract(bits - 1, 0, c - ord('0'))
+            elif it.decide(z3.And(z3.UGE(c, ord('a')), z3.ULE(c, ord('f')))):
+                d = z3.ZeroExt(bits - 32, c - ord('a') + 10) if bits > 32 else z3.Extract(bits - 1, 0, c - ord('a') + 10)
+            elif it.decide(z3.And(z3.UGE(c, ord('A')), z3.ULE(c, ord('F')))):
+                d = z3.ZeroExt(bits - 32, c - ord('A') + 10) if bits > 32 else z3.Extract(bits - 1, 0, c - ord('A') + 10)
+            else:
+                return E('InvalidDigit')
+        val = (val << 4) | d
+    return ok(z3.simplify(val))
 
 
 @model(exact=('char::methods::<impl char>::is_control', 'core::char::methods::<impl char>::is_control'))
